@@ -220,6 +220,18 @@ func (s *LinearState) Add(ctx *Context, id string, x Map) (string, error) {
 		defer s.withoutPrivilege(ctx)
 		if err := s.addHook(ctx, s, id, m, ctx.GetLoc().loading); err != nil {
 			Log(ERROR, ctx, "LinearState.Add", "state", s.Name, "error", err, "when", "addHook", "id", id)
+			// The store already has what the hook refused.  Put
+			// back what we still hold in memory; otherwise the
+			// refused fact replaces it at the next load.
+			var rerr error
+			if previous, have := s.Facts[id]; have {
+				rerr = s.store.Add(ctx, s.Name, &Pair{[]byte(id), previous.JS})
+			} else {
+				_, rerr = s.store.Remove(ctx, s.Name, []byte(id))
+			}
+			if rerr != nil {
+				Log(ERROR, ctx, "LinearState.Add", "state", s.Name, "error", rerr, "when", "restore", "id", id)
+			}
 			return "", err
 		}
 	}
